@@ -4,8 +4,9 @@
 export GOFLAGS=-mod=mod GOPROXY=off GOSUMDB=off GOTOOLCHAIN=local
 cd /verif
 rm -rf /tmp/benignbase; mkdir -p /tmp/benignbase; rsync -a --exclude .git /repo/ /tmp/benignbase/
-for d in seeded/benign-*; do
-  s=$(basename $d); w=/tmp/benignrepo-$s; rm -rf $w; mkdir -p $w; rsync -a /tmp/benignbase/ $w/
+LIST="$@"; [ -z "$LIST" ] && LIST=$(ls -d seeded/benign-* | xargs -n1 basename)
+for s in $LIST; do d=seeded/$s;
+  w=/tmp/benignrepo-$s; rm -rf $w; mkdir -p $w; rsync -a /tmp/benignbase/ $w/
   ( cd $w && patch -p1 -s < /verif/$d/patch.diff ) || { echo "$s patch-failed"; continue; }
   ( cd $w && go build ./... ) || { echo "$s does-not-build"; continue; }
   for p in $(cat $d/props); do
